@@ -2,7 +2,6 @@ package main
 
 import (
 	"crypto/sha256"
-	"encoding/csv"
 	"encoding/hex"
 	"fmt"
 	"os"
@@ -80,15 +79,34 @@ func writeCSV(path string, rows [][]string) {
 			maxc = len(r)
 		}
 	}
-	cw := csv.NewWriter(f)
+	var sb strings.Builder
 	for _, r := range rows {
 		rr := make([]string, maxc)
 		copy(rr, r)
-		if err := cw.Write(rr); err != nil {
-			panic(err)
+		sb.WriteString(csvLine(rr))
+	}
+	if _, err := f.WriteString(sb.String()); err != nil {
+		panic(err)
+	}
+}
+
+// csvLine writes one record the way spreadsheet programs do (RFC 4180): a field is quoted only when it holds a
+// comma, a quote or a line break — blanks at its start or end are written as they are (encoding/csv's writer
+// would quote those; seed C01-4 trimmed them in the reader)
+func csvLine(rec []string) string {
+	var sb strings.Builder
+	for i, f := range rec {
+		if i > 0 {
+			sb.WriteByte(',')
+		}
+		if strings.ContainsAny(f, ",\"\r\n") {
+			sb.WriteString(`"` + strings.ReplaceAll(f, `"`, `""`) + `"`)
+		} else {
+			sb.WriteString(f)
 		}
 	}
-	cw.Flush()
+	sb.WriteByte('\n')
+	return sb.String()
 }
 
 // writeCSVRagged writes every record without its trailing blank cells (at least one cell)
@@ -101,7 +119,7 @@ func writeCSVRagged(path string, rows [][]string) {
 		panic(err)
 	}
 	defer f.Close()
-	cw := csv.NewWriter(f)
+	var sb strings.Builder
 	for _, r := range rows {
 		n := len(r)
 		for n > 1 && r[n-1] == "" {
@@ -111,11 +129,11 @@ func writeCSVRagged(path string, rows [][]string) {
 		if len(rr) == 0 {
 			rr = []string{""}
 		}
-		if err := cw.Write(rr); err != nil {
-			panic(err)
-		}
+		sb.WriteString(csvLine(rr))
 	}
-	cw.Flush()
+	if _, err := f.WriteString(sb.String()); err != nil {
+		panic(err)
+	}
 }
 
 func metasheetRows(b bookSpec) [][]string {
